@@ -525,11 +525,16 @@ class CooperativeTask:
         try:
             result = next(self._iterator)
         except StopIteration:
-            self._completeWith(TaskDone(), self._iterator)
+            # The iterator may have finished this very task itself (by
+            # stopping it, or its Cooperator) before returning: then it is
+            # already complete, with that outcome.
+            if self._completionState is None:
+                self._completeWith(TaskDone(), self._iterator)
         except BaseException:
-            self._completeWith(TaskFailed(), Failure())
+            if self._completionState is None:
+                self._completeWith(TaskFailed(), Failure())
         else:
-            if isinstance(result, Deferred):
+            if isinstance(result, Deferred) and self._completionState is None:
                 self.pause()
 
                 def failLater(failure: Failure) -> None:
